@@ -419,5 +419,18 @@ def check(eng, res):
     do_while(eng, res)
     fully(eng, res)
     res.floor("R-DO-WHILE", sum(1 for o in res.obligations if o.rule == "R-DO-WHILE"), 2)
+    # the inverted terminal used for the hand-over repeats symbol, id and bond order of the terminal (shared with C01)
+    from . import c01 as _c01
+
+    _sub = type(res)(res.prop)
+    _c01.insert_accept(eng, _sub, rule="R-INVERT-TEXT")
+    for _o in _sub.obligations:
+        if _o.role in ("insert-template", "insert-symbol"):
+            res.obligations.append(_o)
+    res.doc("R-INVERT-TEXT", "the inverted terminal used for the hand-over repeats symbol, id and bond order of the terminal (shared with C01's R-INSERT-ACCEPT)")
+    from ..fresh import fresh_results
+
+    res.doc("R-FRESH-RESULT", "A-FRESH: what a loop hands on (the finalised molecule) is assigned in the iteration that leaves the loop")
+    fresh_results(eng, res, {"stochastic"})
     res.assumptions += ["attach_other returns its receiver (R-ONE-BOND, C05)", "start guards' meaning is decided in C15 (roles sto-missing-prefix, sto-prefix-single, sto-prefix-terminal, sto-start-group-single)"]
     res.not_decided += ["termination (data-dependent loops)", "that every descriptor is consumed", "leaves-only end groups", "closability of descriptor types"]
